@@ -96,7 +96,7 @@ def rule_semantic(src, rep, counts):
             raise AnalysisError("fsarray(%r, %r) not evaluable: %s" % (strings, width, r))
         return r[1]
 
-    arrays = [(["abcdef", "ab", "", "abcd"], 6), (["ab"], 4), ([], 3), (["abc", "abc"], 3)]
+    arrays = [(["abcdef", "ab", "", "abcd"], 6), (["ab"], 4), ([], 3), (["abc", "abc"], 3), (["", ""], 0)]
     blocks_1 = ["", "x", "xy", "xyz", "wxyz", "vwxyzq"]
     if rep.tier == "thorough":
         arrays += [(["a", "abcde", "abc"], 5), ([""], 1), (["ab", "", "", "a"], 2), (["abcd"], 4), (["", "abc"], 6), ([], 0)]
@@ -109,6 +109,11 @@ def rule_semantic(src, rep, counts):
         H = len(strings)
         row_regions = [(0, 1), (1, 3), (H, H + 1), (max(0, H - 1), H + 1), (H + 2, H + 3)]
         col_regions = [(0, 2), (1, 3), (2, width), (0, width), (1, 1)]
+        # regions that start at or beyond the right edge: nothing fits there, so only an empty block row can be assigned
+        edge_regions = [(width, width + 2), (width + 1, width + 2)]
+        for (r0, r1), (c0, c1) in itertools.product(row_regions[:3], edge_regions):
+            for bl in ("", "x", "xy"):
+                cases.append((strings, width, r0, r1, c0, c1, [bl] * (r1 - r0), False))
         for (r0, r1), (c0, c1) in itertools.product(row_regions, col_regions):
             if c1 > width or c0 > c1:
                 continue
@@ -200,6 +205,21 @@ def rule_semantic(src, rep, counts):
                "a single-cell assignment at or beyond the current height must grow the array with blank rows and set the cell; got %s, "
                "rows %s (expected %s)" % (r, _txt(_strip(_shown(arr))), _txt(_strip(ref.shown()))),
                witness={"history": "fsarray(%r)[%d, %d] = ['x']" % (strings, rr, cc)})
+        rep.case(True)
+    # int indices with a block that does not have exactly one row: rejected, nothing changes - whether or not the row exists yet
+    for strings, width, rr, cc, block in ((["abcd", "efgh"], 4, 0, 2, ["X", "Y"]), (["abcd", "efgh"], 4, 1, 0, []), (["ab"], 5, 3, 1, ["X", "Y"]),
+                                          (["abcd", "efgh"], 4, 0, 2, "fsarray"), (["abcd"], 4, 0, 1, ["X", "Y", "Z"])):
+        arr = build(strings, width)
+        before = _strip(_shown(arr))
+        val = build(["X", "Y"], 1) if block == "fsarray" else list(block)
+        r = it.call1("formatstringarray", "FSArray.__setitem__", arr, (rr, cc), val)
+        if r[0] == "opaque":
+            raise AnalysisError("FSArray.__setitem__ outside the evaluated subset: %s" % r[1])
+        after = _strip(_shown(arr))
+        ok = r[0] == "raise" and after[:len(before)] == before and all(all(c == BLANK for c in row) for row in after[len(before):])
+        rep.ob("A-int-index-assignment", f.where(), f.scope, "array %r: a[%d, %d] = %s" % (strings, rr, cc, "a two-row FSArray" if block == "fsarray" else block), ok,
+               "a block with the wrong number of rows must be rejected and change no cell; got %s, rows %s" % (r, _txt(after)),
+               witness={"history": "fsarray(%r)[%d, %d] = %r" % (strings, rr, cc, block)})
         rep.case(True)
     # sequences of assignments (histories)
     histories = [
